@@ -1058,39 +1058,101 @@ def check_c08(prog, rep, tier, cfg):
     rs_new_table(prog, rep, R)
 
 
-def rs_new_table(prog, rep, R):
+def rs_new_facts(prog):
+    """What ReconstructionSettings::new builds, whatever it is split into: {(LineEnding variant, newline literal)}, the constants
+    used as indentation unit, the repetition sites with the origin of their counts.  Family = new, its closures, and functions of
+    pasfmt_core::lang called from there (with their closures)."""
     nb = prog.body(RS + "::new")
-    if not rep.check(nb is not None, R, "anchor:ReconstructionSettings::new", "ReconstructionSettings::new not found"):
+    if nb is None:
         return None
-    t = Table(prog, nb)
-    rows = []
+    fam = [nb] + [x for x in prog.bodies.values() if x.npath.startswith(nb.npath + "::")]
+    helpers = {}
+    for c in nb.calls():
+        tgt = norm(c.t.get("resolved") or c.callee or "")
+        cb = prog.body(tgt)
+        if cb is not None and tgt.startswith(LANG) and not cb.loops() and tgt in helpers:
+            helpers[tgt].append(c)
+        elif cb is not None and tgt.startswith(LANG) and cb not in fam and not cb.loops():
+            helpers.setdefault(tgt, []).append(c)
+            fam.append(cb)
+            fam += [x for x in prog.bodies.values() if x.npath.startswith(cb.npath + "::")]
+            for c2 in cb.calls():
+                t2 = norm(c2.t.get("resolved") or c2.callee or "")
+                cb2 = prog.body(t2)
+                if cb2 is not None and t2.startswith(LANG) and cb2 not in fam and not cb2.loops():
+                    fam.append(cb2)
+    t = Table(prog, nb, inline=2)
+    pairs, kinds = set(), set()
     for cons, res in t.rows:
         le = [c[2] for c in cons if c[0] == "is" and c[1] == "arg1"]
         tk = [c[2] for c in cons if c[0] == "is" and c[1] == "arg2"]
-        r = render(res)
-        rows.append((le[0] if le else "?", tk[0] if tk else "?", r))
-    want = {("Crlf", "Soft"): ("'\\r\\n'", "' '"), ("Crlf", "Hard"): ("'\\r\\n'", "'\\t'"), ("Lf", "Soft"): ("'\\n'", "' '"), ("Lf", "Hard"): ("'\\n'", "'\\t'")}
-    good = len(rows) == 4
-    for le, tk, r in rows:
-        w = want.get((le, tk))
-        if not w:
-            good = False
+        kinds.add((le[0] if le else "?", tk[0] if tk else "?"))
+        if res.kind == "agg" and res.a[2]:
+            nl = res.a[2][0]
+            pairs.add((le[0] if le else "?", nl.a[1] if nl.kind == "const" and isinstance(nl.a, tuple) else str(nl.a)))
+    consts = set()
+    for x in fam:
+        for bb, i, st in x.stmts():
+            if st["k"] == "assign":
+                for op in _rv_operands(st["rv"]):
+                    if op["k"] == "const" and ("str" in op or "char" in op):
+                        consts.add(op["str"] if "str" in op else (op["char"] if isinstance(op["char"], str) else chr(op["char"])))
+        for c in x.calls():
+            for a in c.args:
+                if a["k"] == "const" and ("str" in a or "char" in a):
+                    consts.add(a["str"] if "str" in a else (a["char"] if isinstance(a["char"], str) else chr(a["char"])))
+    reps = []
+    for x in fam:
+        for c in x.calls():
+            cal = c.callee or ""
+            cnt = None
+            if cal == "alloc::str::repeat":
+                cnt = c.args[1]
+            elif cal.endswith("Iterator::take") and any(y[0] == "call" and y[2].split("::")[-1] == "repeat" for y in Origins(x).of_operand(c.args[0])):
+                cnt = c.args[1]
+            elif cal.split("::")[-1] in ("repeat_n",):
+                cnt = c.args[1]
+            if cnt is None:
+                continue
+            o = Origins(x, extra_identity={"core::convert::Into::into", "core::convert::From::from"}).of_operand(cnt)
+            ok = bool(o) and all(y[0] in ("param", "upvar") for y in o)
+            why = sorted(str(y[2]).split("::")[-1] if y[0] == "call" else y[0] for y in o)
+            if ok and x.npath in helpers:
+                # the helper's count parameter must itself be handed a width parameter of `new`, unmodified
+                ks = {y[1] for y in o if y[0] == "param"}
+                for site in helpers[x.npath]:
+                    for k in ks:
+                        if k - 1 < len(site.args):
+                            o2 = Origins(nb, extra_identity={"core::convert::Into::into", "core::convert::From::from"}).of_operand(site.args[k - 1])
+                            if not o2 or not all(y[0] == "param" for y in o2):
+                                ok = False
+                                why = ["at the call of %s: " % short(x.npath)] + sorted(str(y[2]).split("::")[-1] if y[0] == "call" else y[0] for y in o2)
+            reps.append((short(x.npath), ok, why))
+    # number of strings built by repetition: direct sites in `new`, or call sites of a helper that repeats
+    built = 0
+    for x in fam:
+        own = [r for r in reps if r[0] == short(x.npath)]
+        if not own:
             continue
-        # ReconstructionSettings(newline, repeat(indent, into(arg3)), repeat(indent, into(arg4)))
-        good &= ("('str', %s)" % w[0]) in r.replace('"', "'") or ("str:%s" % w[0].strip("'")) in r or repr(w[0].strip("'").encode().decode("unicode_escape")) in r
-    rep.check(len(rows) == 4, R, "new:four-cases", "ReconstructionSettings::new no longer distinguishes exactly {Crlf,Lf} x {Soft,Hard}: %s" % rows, instance={"rows": rows})
-    # the two strings are `indent` repeated exactly indent_width / continuation_width times: the widths reach str::repeat unmodified
+        built += len(own) if x.npath == nb.npath or x.npath.startswith(nb.npath + "::") else len(own) * len(helpers.get(x.npath, [])) or len(own)
+    return {"body": nb, "pairs": pairs, "kinds": kinds, "consts": consts, "reps": reps, "built": built}
+
+
+def rs_new_table(prog, rep, R):
+    f = rs_new_facts(prog)
+    if not rep.check(f is not None, R, "anchor:ReconstructionSettings::new", "ReconstructionSettings::new not found"):
+        return None
+    nb = f["body"]
+    want_kinds = {("Crlf", "Soft"), ("Crlf", "Hard"), ("Lf", "Soft"), ("Lf", "Hard")}
+    rep.check(f["kinds"] == want_kinds and f["pairs"] == {("Crlf", "\r\n"), ("Lf", "\n")}, R, "new:four-cases",
+              "ReconstructionSettings::new no longer distinguishes exactly {Crlf,Lf} x {Soft,Hard} with the newline literals \\r\\n / \\n: cases %s, newline %s" % (sorted(f["kinds"]), sorted(map(repr, f["pairs"]))),
+              instance={"cases": sorted(map(str, f["kinds"])), "newline": sorted(map(repr, f["pairs"]))})
+    # the two strings are the unit repeated exactly indent_width / continuation_width times: the widths reach the repetition unmodified
     # (a clamp / max / arithmetic on them means something else for tabs than for blanks, and changes what 0 means)
-    fam = [nb] + [x for x in prog.bodies.values() if x.npath.startswith(nb.npath + "::")]
-    reps = [(x, c) for x in fam for c in x.calls() if (c.callee or "").endswith("str::repeat") or (c.callee or "") == "alloc::str::repeat"]
-    bad = []
-    for x, c in reps:
-        o = Origins(x, extra_identity={"core::convert::Into::into", "core::convert::From::from"}).of_operand(c.args[1])
-        if not o or not all(y[0] in ("param", "upvar") for y in o):
-            bad.append("%s: repeat count from %s" % (short(x.npath), sorted(str(y[2]).split("::")[-1] if y[0] == "call" else y[0] for y in o)))
-    rep.check(len(reps) == 2 and not bad, R, "new:widths-unmodified", "ReconstructionSettings::new does not repeat the indent character exactly indent_width / continuation_width times: %s" % (bad or "%d repeat calls" % len(reps)),
-              where="%s:%d" % (nb.file, nb.line), instance={"repeat_calls": len(reps), "count_origins": "the width parameters, unmodified"})
-    return rows
+    bad = ["%s: repeat count from %s" % (r[0], r[2]) for r in f["reps"] if not r[1]]
+    rep.check(f["built"] == 2 and not bad, R, "new:widths-unmodified", "ReconstructionSettings::new does not repeat the indent character exactly indent_width / continuation_width times: %s" % (bad or "%d strings built by repetition" % f["built"]),
+              where="%s:%d" % (nb.file, nb.line), instance={"strings_built_by_repetition": f["built"], "count_origins": "the width parameters, unmodified"})
+    return sorted(f["kinds"])
 
 
 # =========================================================================== C09
@@ -1182,22 +1244,14 @@ def check_c09(prog, rep, tier, cfg):
     R = "C09.a"
     nb = prog.body(RS + "::new")
     if rep.check(nb is not None, R, "anchor:ReconstructionSettings::new", "ReconstructionSettings::new not found"):
-        t = Table(prog, nb)
-        pairs = set()
-        for cons, res in t.rows:
-            le = [c[2] for c in cons if c[0] == "is" and c[1] == "arg1"]
-            if res.kind == "agg":
-                nl = res.a[2][0]
-                pairs.add((le[0] if le else "?", nl.a[1] if nl.kind == "const" and isinstance(nl.a, tuple) else str(nl.a)))
+        f = rs_new_facts(prog)
+        pairs = f["pairs"]
         rep.check(pairs == {("Crlf", "\r\n"), ("Lf", "\n")}, R, "AGREE:LineEnding<->literal", "ReconstructionSettings::new maps line endings to %s" % sorted(map(repr, pairs)), instance={"pairs": sorted(map(repr, pairs))})
-        # indentation unit: one blank char chosen by TabKind, repeated
-        reps = nb.calls_to("alloc::str::repeat")
-        ok = len(reps) == 2 and sorted(canon(nb, c.args[1]) for c in reps) == ["into(arg3)", "into(arg4)"]
-        o = set()
-        for c in reps:
-            o |= Origins(nb).of_operand(c.args[0])
-        ok &= {x[2] for x in o if x[0] == "const"} == {" ", "\t"}
-        rep.check(ok, R, "indent-strings=repeat(unit,width)", "indentation/continuation strings are not repeat(' ' | '\\t', width): %s" % sorted(map(str, o)), instance={"unit": [" ", "\\t"], "widths": ["indent_width", "continuation_width"]})
+        # indentation unit: one blank char chosen by TabKind, repeated; no other text constant takes part in building the three strings
+        units = {c for c in f["consts"] if c not in ("\r\n", "\n")}
+        ok = units == {" ", "\t"} and f["built"] == 2 and all(r[1] for r in f["reps"])
+        rep.check(ok, R, "indent-strings=repeat(unit,width)", "indentation/continuation strings are not repeat(' ' | '\\t', width): unit constants %s, strings built by repetition %d" % (sorted(map(repr, units)), f["built"]),
+                  instance={"unit": [" ", "\\t"], "widths": ["indent_width", "continuation_width"]})
     mk = set()
     for k, b in prog.bodies.items():
         if b.crate.startswith("pasfmt"):
